@@ -1095,6 +1095,19 @@ fn gen_case(batch: &str, index: u64, seed: u64) -> Case {
             let kernel = if pr.chance(0.7) { KSpec { kind: "rbf".into(), gamma: *pr.pick(&[0.5, 1.0]), degree: 0.0, coef0: 0.0 } } else { KSpec { kind: "linear".into(), gamma: 0.0, degree: 0.0, coef0: 0.0 } };
             Case { model: "svr".into(), x, y, kernel, c: *pr.pick(&[10.0, 100.0]), tol: *pr.pick(&[1e-3, 1e-4]), epoch: 0, eps: *pr.pick(&[0.0, 0.1]), f32m: true, queries: vec![], budget: 500_000_000, tape: TapeSpec::prng(tape_seed), kind: "svr-f32-resolution".into(), ctor: (seed % 4) as u8 }
         }
+        "svr-f32-offcentre" => {
+            // single precision, feature columns far from zero relative to their spread (offset 16..256, spread 1) and
+            // centred targets that depend steeply on a column: the bias ends up much larger than any target, so the
+            // gradients grow from ~|y| to ~|b| during the fit and the floating-point floor of the stopping rule
+            // (8 eps |g|) has to follow them
+            let n = pr.usize_in(8, 20);
+            let off = *pr.pick(&[16.0, 64.0, 64.0, 256.0]);
+            let slope = pr.range(10.0, 60.0);
+            let x: Vec<Vec<f64>> = (0..n).map(|_| vec![off + r.range(-0.5, 0.5), off + r.range(-0.5, 0.5)]).collect();
+            let y: Vec<f64> = x.iter().map(|row| slope * (row[0] - off) + 0.1 * r.range(-1.0, 1.0)).collect();
+            let kernel = if pr.chance(0.6) { KSpec { kind: "poly".into(), gamma: 0.5, degree: 2.0, coef0: 1.0 } } else { KSpec { kind: "linear".into(), gamma: 0.0, degree: 0.0, coef0: 0.0 } };
+            Case { model: "svr".into(), x, y, kernel, c: *pr.pick(&[1.0, 10.0, 100.0]), tol: *pr.pick(&[1e-4, 1e-3]), epoch: 0, eps: 0.05, f32m: true, queries: vec![], budget: 500_000_000, tape: TapeSpec::prng(tape_seed), kind: "svr-f32-offcentre".into(), ctor: (seed % 4) as u8 }
+        }
         "svr-resonant" => {
             // parameters tuned to the data. SMO moves coefficients to the unclipped optimum of a pair,
             //     L(a,b) = (|y_a - y_b| - 2 eps) / (K_aa + K_bb - 2 K_ab),
@@ -1291,6 +1304,7 @@ impl Property for C10 {
             Batch { name: "svr-marathon", count: if q { 12 } else { 240 }, simulated: false, exhaustive: false, note: "schedule-free: converging fits that need 1e6..1e8 SMO updates (4..8 rows, one feature of magnitude 300..1000, linear kernel, C * scale^2 = 5e6..1.5e7; the last 24 runs of the thorough tier 3e7..1e8, i.e. up to several 1e9 updates): optimality must hold at termination however long it takes" },
             Batch { name: "svr-large-features", count: if q { 1_500 } else { 60_000 }, simulated: false, exhaustive: false, note: "schedule-free: large kernel curvature (linear kernel on features of magnitude 30..300, quadratic on ~10), noise below epsilon, f32 and f64" },
             Batch { name: "svr-f32-resolution", count: if q { 1_500 } else { 60_000 }, simulated: false, exhaustive: false, note: "schedule-free: f32 fits whose tolerance lies below the floating-point resolution of the targets (|y| 1e3..1e5, tol 1e-3..1e-4) — the region of the repaired livelock" },
+            Batch { name: "svr-f32-offcentre", count: if q { 1_500 } else { 60_000 }, simulated: false, exhaustive: false, note: "schedule-free, single precision: feature columns offset by 16..256 with spread 1, centred targets with slope 10..60 (|b| >> |y|): the gradients grow by orders of magnitude during the fit" },
             Batch { name: "svr-f32", count: if q { 1_000 } else { 100_000 }, simulated: false, exhaustive: false, note: "schedule-free, single precision" },
             Batch { name: "kernels", count: if q { 6_000 } else { 600_000 }, simulated: false, exhaustive: false, note: "schedule-free: closed forms, symmetry, PSD of linear/RBF Gram matrices" },
             Batch { name: "kernels-f32", count: if q { 2_000 } else { 200_000 }, simulated: false, exhaustive: false, note: "schedule-free, single precision" },
